@@ -65,7 +65,7 @@ example : Json.inRangeObj [(key! "track", jrat 3599 10)] = true := by decide
     quantities could hand one frame the values of another). -/
 theorem hidden_state_reviewed :
     Gen.HiddenState.sitesIn Rs1090.Props.C01.decoderFiles =
-      [("decode/mod.rs", "static CONFIG: OnceCell<SerializeConfig> = OnceCell::new();")] :=
+      [("decode/mod.rs", "static CONFIG:OnceCell<SerializeConfig>=OnceCell::new();")] :=
   Rs1090.Props.C01.hidden_state_reviewed
 
 end Rs1090.Props.C08
